@@ -200,7 +200,7 @@ def run(module, cfg_text, *, workers=None, simulate=None, depth=None, seed=None,
         _parse(res)
         if p is None:
             res.complete = False
-            res.mode = 'bfs (stopped at its %ds budget)' % timeout
+            res.mode = '%s (stopped at its %ds budget)' % (res.mode, timeout)
             res.rc = 0
             m = None
             for m in _PROG.finditer(out):
